@@ -384,25 +384,41 @@ theorem psiCircle_dot (srcDec srcRa psi t : ℝ) :
   have h3 := sin_sq_add_cos_sq srcRa
   grind
 
+/-- `arctan2(z, hypot(x, y))` of a unit vector is `arcsin z` -/
+theorem atan2_hypot_eq_arcsin {x y z : ℝ} (h : x ^ 2 + y ^ 2 + z ^ 2 = 1) :
+    Complex.arg ⟨√(x * x + y * y), z⟩ = arcsin z := by
+  have hn : ‖(⟨√(x * x + y * y), z⟩ : ℂ)‖ = 1 := by
+    rw [norm_mk, sq_sqrt (add_nonneg (mul_self_nonneg _) (mul_self_nonneg _))]
+    rw [show x * x + y * y + z ^ 2 = 1 by linarith]
+    exact sqrt_one
+  rw [Complex.arg_of_re_nonneg (by simp [sqrt_nonneg]), hn]
+  simp
+
+/-- `arctan2(z, r)` with `r ≥ 0` is a declination in the canonical range, whatever `z` and `r` are -/
+theorem abs_atan2_le_of_nonneg (z r : ℝ) (hr : 0 ≤ r) :
+    -(π / 2) ≤ Complex.arg ⟨r, z⟩ ∧ Complex.arg ⟨r, z⟩ ≤ π / 2 := by
+  rw [Complex.arg_of_re_nonneg (by simpa using hr)]
+  exact ⟨neg_pi_div_two_le_arcsin _, arcsin_le_pi_div_two _⟩
+
 /-- the direction returned by `psi_to_dec_and_ra` as a unit vector -/
-theorem unitVec_psiToDecRa (srcDec srcRa psi t : ℝ) :
-    let v := psiCircle srcDec srcRa psi t
-    unitVec (psiToDecRa srcDec srcRa psi t).2 (psiToDecRa srcDec srcRa psi t).1 = ⟨-v.x, v.y, v.z⟩ := by
-  intro v
-  have h : IsUnit3 v := psiCircle_isUnit ..
+theorem unitVec_xyzToDecRa {v : V3 ℝ} (h : IsUnit3 v) :
+    unitVec (xyzToDecRa v).2 (xyzToDecRa v).1 = ⟨-v.x, v.y, v.z⟩ := by
   have h' : v.x ^ 2 + v.y ^ 2 + v.z ^ 2 = 1 := by simp only [IsUnit3, dot] at h; linarith
   have hz : -1 ≤ v.z ∧ v.z ≤ 1 := by constructor <;> nlinarith [sq_nonneg v.x, sq_nonneg v.y]
   obtain ⟨hc, hs⟩ := cos_sin_atan2_mul h'
-  have hdec : π / 2 - arccos v.z = arcsin v.z := (arcsin_eq_pi_div_two_sub_arccos v.z).symm
-  simp only [psiToDecRa, unitVec, TranscReal.sin_def, TranscReal.cos_def, TranscReal.acos_def,
-    TranscReal.pi_def, atan2_def, cos_modF_twoPi, sin_modF_twoPi, cos_pi_sub, sin_pi_sub]
-  change (⟨_, _, _⟩ : V3 ℝ) = ⟨-v.x, v.y, v.z⟩
-  rw [clipPM1_of_mem hz.1 hz.2, hdec, sin_arcsin hz.1 hz.2]
+  simp only [xyzToDecRa, unitVec, TranscReal.sin_def, TranscReal.cos_def, TranscReal.sqrt_def,
+    TranscReal.pi_def, atan2_def, cos_modF_twoPi, sin_modF_twoPi, cos_pi_sub, sin_pi_sub,
+    atan2_hypot_eq_arcsin h', sin_arcsin hz.1 hz.2]
   apply V3.ext'
   · show -cos (Complex.arg ⟨v.x, v.y⟩) * cos (arcsin v.z) = -v.x
     rw [neg_mul, hc]
   · exact hs
   · rfl
+
+theorem unitVec_psiToDecRa (srcDec srcRa psi t : ℝ) :
+    let v := psiCircle srcDec srcRa psi t
+    unitVec (psiToDecRa srcDec srcRa psi t).2 (psiToDecRa srcDec srcRa psi t).1 = ⟨-v.x, v.y, v.z⟩ :=
+  unitVec_xyzToDecRa (psiCircle_isUnit ..)
 
 /-! ### astropy's relocation -/
 
@@ -599,5 +615,28 @@ theorem arccos_dot_triangle {u v w : V3 ℝ} (hu : IsUnit3 u) (hv : IsUnit3 v) (
     calc arccos (dot u w) ≤ arccos (cos (arccos p + arccos q)) := arccos_le_arccos (hcos ▸ key)
       _ = arccos p + arccos q := arccos_cos (add_nonneg (arccos_nonneg p) (arccos_nonneg q)) hsum
   · linarith [arccos_le_pi (dot u w)]
+
+/-! ### facts used for the bound inside astropy's polar cap and for the NaN-domain theorems -/
+
+/-- astropy's `cos_b` is a cosine: it lies in `[-1, 1]` in exact arithmetic -/
+theorem offsetCosB_mem (lat posang dist : ℝ) :
+    -1 ≤ offsetCosB lat posang dist ∧ offsetCosB lat posang dist ≤ 1 := by
+  simp only [offsetCosB, TranscReal.sin_def, TranscReal.cos_def]
+  have hCS := sin_sq_add_cos_sq lat
+  have ha := sin_sq_add_cos_sq dist
+  have hB := sin_sq_add_cos_sq posang
+  have hsb2 : 1 - (sin lat * cos dist + cos lat * sin dist * cos posang) ^ 2
+      = cos lat ^ 2 * sin posang ^ 2 + (sin lat * sin dist - cos lat * cos posang * cos dist) ^ 2 := by
+    grind
+  constructor <;>
+    nlinarith [sq_nonneg (cos lat * sin posang), sq_nonneg (sin lat * sin dist - cos lat * cos posang * cos dist)]
+
+/-- the latitude returned by `offset_by` does not depend on the pole threshold -/
+theorem offsetBy_snd (eps eps' lon lat posang dist : ℝ) :
+    (offsetBy eps lon lat posang dist).2 = (offsetBy eps' lon lat posang dist).2 := rfl
+
+/-- scalar product with a pole: only the declination matters -/
+theorem dotRD_pole (ra0 ra dec p : ℝ) (hp : cos p = 0) : dotRD ra0 p ra dec = sin p * sin dec := by
+  rw [dotRD_eq, hp]; ring
 
 end Coords
